@@ -12,7 +12,8 @@ import eqlgen as G
 from core import Case
 
 PID = "C10"
-LEAN_MODULES = ["KrroodVerif.Props.C10", "KrroodVerif.Props.C10Q", "KrroodVerif.Props.C10N", "KrroodVerif.Props.C09Lazy"]
+LEAN_MODULES = ["KrroodVerif.Props.C10", "KrroodVerif.Props.C10Q", "KrroodVerif.Props.C10N", "KrroodVerif.Props.C10Sub",
+                "KrroodVerif.Props.C09Lazy"]
 THEOREMS = [
     "KrroodVerif.Eql.C10_trace_vis",
     "KrroodVerif.Eql.C10_trace_rows",
@@ -80,22 +81,43 @@ THEOREMS = [
     "KrroodVerif.Eql.C10N_forall_early_exit_pulled",
     "KrroodVerif.Eql.C10N_pull_in_range",
     "KrroodVerif.Eql.C10N_pulled_le_domain",
+    "KrroodVerif.Eql.C10S_operand_vis",
+    "KrroodVerif.Eql.C10S_vis",
+    "KrroodVerif.Eql.C10S_query_vis",
+    "KrroodVerif.Eql.C10S_rows",
+    "KrroodVerif.Eql.C10S_prefix",
+    "KrroodVerif.Eql.C10S_pulled_mono",
+    "KrroodVerif.Eql.C10S_never_pulls_bound",
+    "KrroodVerif.Eql.C10S_bound_inner_pulled_zero",
+    "KrroodVerif.Eql.C10S_streaming",
+    "KrroodVerif.Eql.C10S_inner_first",
+    "KrroodVerif.Eql.C10S_inner_pulls",
 ]
 MODEL_FUNCTION = ("Eql.traceQuery / Eql.traceE / Eql.uptoRow / Eql.pulled (Model/EqlTrace.lean); Eql.traceExistsRoot / "
                   "Eql.traceForAllRoot (Model/EqlTraceQ.lean); Eql.traceN / Eql.traceQueryN / Eql.existsWalkN / "
-                  "Eql.traceForAllN (Model/EqlTraceN.lean: quantifiers in any position)")
+                  "Eql.traceForAllN (Model/EqlTraceN.lean: quantifiers in any position); Eql.traceOperand / Eql.traceCmpX / "
+                  "Eql.traceX / Eql.traceQueryX / Eql.subStream / Eql.theWalk (Model/EqlTraceSub.lean: an(...)/the(...) "
+                  "sub-queries as operands)")
 TRUSTED = [
     "Lean 4.33 kernel; axioms of each theorem listed under coverage.theorems",
     "hand-written trace model Model/EqlTrace.lean (continuation-passing transcription of symbolic.py evaluation)",
     "hand-written Model/EqlTraceN.lean (Exists / ForAll in any position as walks over the child's event stream; "
     "validated per run: pull counts per domain and per k equal to the real engine's on every sampled query)",
+    "hand-written Model/EqlTraceSub.lean (nested an(...)/the(...) operands: restarted per outer binding, streamed, an "
+    "unbound selected variable materialised by itertools.product; `the` = walk over the inner stream; validated per run: "
+    "pull counts per domain and per k equal to the real engine's on every sampled query; the theorems of Props/C10Sub "
+    "cover an(...) — `thes = []` —, the(...) is tied by the correspondence and concrete `decide` tests only)",
+    "the two-query history observation (Drive/C10 runTwo: max of the two partial evaluations' needs) is a driver-level "
+    "formula over traceQueryN, not a theorem",
     "this correspondence harness (logging generators / attribute access), the S-expression driver",
 ]
 ASSUMPTIONS = [
     "CPython generator protocol: a suspended generator performs no work until next() is called",
     "queries are tree-shaped; quantifiers may occur anywhere below and_/or_/not_ and below each other (Model/EqlTraceN.lean)",
 ]
-RULE = ("corpus, then quantifiers below and_/or_/not_ and inside other quantifiers (hand-shaped positions + the shared "
+RULE = ("corpus, then nested an(...)/the(...) sub-queries as comparison operands (correlated / uncorrelated, inner variable "
+        "over an int or object generator domain; every k; the same history re-evaluation), then two DIFFERENT queries over one "
+        "variable set (A abandoned after k results, then B: one result, then B exhausted), then quantifiers below and_/or_/not_ and inside other quantifiers (hand-shaped positions + the shared "
         "generator's quantified trees), random root-level exists/for_all over quantifier-free bodies and random quantifier-free condition trees (depth<=3, 1-3 variables, int/object domains as one-shot "
         "logging generators); each query is rebuilt and consumed for every k in 0..n+1, each time followed by a second evaluation of the same object of which one result is taken; non-trivial = the query has "
         ">=2 results and some domain is not fully pulled at k=1; distinct by case text")
@@ -165,6 +187,27 @@ def generate(rng, tier, n):
         case = Case(G.sx_query(q), tuple(tags), "random", q)
         NESTED.append(case)
         out.append(case)
+    # SUB-QUERY OPERANDS (Model/EqlTraceSub.lean, Props/C10Sub.lean): `x.a == an(entity(y, φ))` / `the(...)`,
+    # correlated and uncorrelated, every domain (the inner variable's too) a one-shot logging generator
+    del SUBQ[:]
+    for i in range(max(100, n // 5)):
+        q = G.gen_subquery_query(rng) if i % 4 == 3 else gen_sub_family(rng)
+        q["subfam"] = True
+        flags = sub_flags(q["cond"])
+        tags = (["subq", "subq-the" if 1 in flags else "subq-an", "subq-corr" if sub_correlated(q["cond"]) else "subq-uncorr",
+                 "nsel%d" % len(q["sel"]), "nvars%d" % len(q["doms"])] + sorted(set(G.cond_ops(q["cond"]))))
+        case = Case(sx_sub(q), tuple(tags), "random", q)
+        SUBQ.append(case)
+        out.append(case)
+    # HISTORY with TWO queries: A is consumed up to its k-th result and abandoned, then a DIFFERENT query B over the
+    # same variable objects is evaluated
+    del TWO[:]
+    for _ in range(max(40, n // 12)):
+        qa, qb = gen_two(rng)
+        case = Case("(two " + G.sx_query(qa) + " " + G.sx_query(qb) + ")", ("two-queries", "nvars%d" % len(qa["doms"])),
+                    "random", (qa, qb))
+        TWO.append(case)
+        out.append(case)
     while len(out) < n:
         q = G.gen_query(rng, quantifiers=False)
         ops = G.cond_ops(q["cond"])
@@ -193,6 +236,251 @@ def gen_root_quantifier(rng):
 
 
 ROOTQ = []    # the root-level quantifier cases of the last `generate`
+SUBQ = []     # the sub-query operand cases of the last `generate`
+TWO = []      # the two-query history cases of the last `generate`
+
+
+# ---------------------------------------------------------------------------------------- sub-query operands
+
+def _subqs(c):
+    """the sub-query operands of a condition, left to right (the order `XSExpr.subIds` lists their ids in)"""
+    if c is None:
+        return []
+    if c[0] == "cmp":
+        return [t for t in (c[2], c[3]) if t[0] == "subq"]
+    if c[0] in ("and", "or"):
+        return _subqs(c[1]) + _subqs(c[2])
+    if c[0] == "not":
+        return _subqs(c[1])
+    return []
+
+
+def sub_flags(c):
+    return [1 if len(t) > 3 and t[3] == "the" else 0 for t in _subqs(c)]
+
+
+def sub_correlated(c) -> bool:
+    """some sub-query's condition mentions a variable other than its own"""
+    return any(t[2] is not None and set(G.c_allvars(t[2])) - {t[1]} for t in _subqs(c))
+
+
+def sx_sub(q) -> str:
+    line = G.sx_query(q)
+    assert line.startswith("(qx ")
+    return "(qs (thes" + "".join(f" {b}" for b in sub_flags(q["cond"])) + ") " + line[4:]
+
+
+def parse_sub(line: str):
+    q = G.parse_query("(qx " + line[4:])
+    flags = [int(b) for b in G.parse_sexp(line)[1][1:]]
+    it = iter(flags)
+
+    def term(t):
+        return ("subq", t[1], t[2], "the" if next(it) else "an") if t[0] == "subq" else t
+
+    def cond(c):
+        if c[0] == "cmp":
+            l = term(c[2])
+            return ("cmp", c[1], l, term(c[3]))
+        if c[0] in ("and", "or"):
+            l = cond(c[1])
+            return (c[0], l, cond(c[2]))
+        if c[0] == "not":
+            return ("not", cond(c[1]))
+        return c
+    q["cond"] = cond(q["cond"])
+    q["subfam"] = True
+    q["force_set_of"] = len(q["sel"]) > 1
+    return q
+
+
+def gen_sub_family(rng):
+    """outer object variable(s) x (z), inner variable y (int or object domain) of a nested `an`/`the` query used as an
+    operand; the nested query's condition is absent, about y alone (uncorrelated) or compares y with an attribute of
+    an outer variable (correlated). Domains of 2-5 elements, so that an early stop leaves something unpulled."""
+    outer = ["x"] if rng.random() < 0.65 else ["x", "z"]
+    ykind = "int" if rng.random() < 0.6 else "obj"
+    kinds = {v: "obj" for v in outer}
+    kinds["y"] = ykind
+    nobj = rng.randrange(2, 6)
+    objs = [{"cls": 0, "veq": False, "fields": {"a": rng.randrange(0, 4), "f": rng.random() < 0.6, "items": [],
+                                                 "m_dbl": 0}} for _ in range(nobj)]
+    for o in objs:
+        o["fields"]["m_dbl"] = 2 * o["fields"]["a"]
+    doms = {v: [("obj", i) for i in range(nobj) if rng.random() < 0.9] for v in outer}
+    if ykind == "int":
+        vals = list(range(0, 5))
+        rng.shuffle(vals)
+        doms["y"] = vals[:rng.randrange(2, 6)]
+    else:
+        doms["y"] = [("obj", i) for i in range(nobj) if rng.random() < 0.9]
+    yt = ("var", "y") if ykind == "int" else ("attr", ("var", "y"), "a")
+    the = rng.random() < 0.35
+    xv = rng.choice(outer)
+    r = rng.random()
+    if r < 0.2 and not the:
+        subcond = None
+    elif r < 0.6:
+        # uncorrelated; for `the`: an equation that at most one value of an int domain satisfies
+        op = "eq" if the else rng.choice(list(G.OPS))
+        subcond = ("cmp", op, yt, ("lit", rng.choice(doms["y"]) if (the and ykind == "int" and doms["y"]) else rng.randrange(0, 4)))
+        if ykind == "obj" and rng.random() < 0.3:
+            subcond = ("and", ("truth", ("attr", ("var", "y"), "f")), subcond)
+    else:
+        # correlated: the nested query mentions an outer variable
+        op = "eq" if the or rng.random() < 0.6 else rng.choice(list(G.OPS))
+        other = ("attr", ("var", xv), "a")
+        subcond = ("cmp", op, yt, other) if rng.random() < 0.5 else ("cmp", op, other, yt)
+    sub = ("subq", "y", subcond, "the" if the else "an")
+    if ykind == "int":
+        other, op = ("attr", ("var", xv), "a"), rng.choice(["eq", "eq", "le", "ne", "ge"])
+    else:
+        other, op = ("var", xv), rng.choice(["eq", "eq", "ne"])
+    atom = ("cmp", op, sub, other) if rng.random() < 0.35 else ("cmp", op, other, sub)
+
+    def plain():
+        v = rng.choice(outer)
+        return rng.choice([("cmp", rng.choice(list(G.OPS)), ("attr", ("var", v), "a"), ("lit", rng.randrange(0, 3))),
+                           ("truth", ("attr", ("var", v), "f"))])
+    r = rng.random()
+    if r < 0.4:
+        cond = atom
+    elif r < 0.65:
+        cond = ("and", plain(), atom)
+    elif r < 0.8:
+        cond = ("and", atom, plain())
+    elif r < 0.9:
+        cond = ("not", atom)
+    else:
+        cond = ("or", plain(), atom)
+    selv = rng.sample(outer + ["y"], rng.randrange(1, len(outer) + 2))
+    used = set(G.c_allvars(cond)) | set(selv) | {"y"}
+    return {"sel": [("var", v) for v in selv], "cond": cond, "objs": objs,
+            "doms": {n: d for n, d in doms.items() if n in used}, "kinds": {n: k for n, k in kinds.items() if n in used},
+            "force_set_of": len(selv) > 1}
+
+
+def build_sub(q, wrap_domain, quantification=None):
+    """the real query for a payload of the sub-query family (own small builder: `the(...)` operands)"""
+    from krrood.entity_query_language import symbolic as S
+    from krrood.entity_query_language.entity import entity, set_of, and_, or_, not_
+    from krrood.entity_query_language.quantify_entity import an, the
+    objs = G.make_objects(q, (LP, LE))
+    V = G.make_vars(q, objs, False, wrap_domain)
+
+    def term(t):
+        if t[0] == "var":
+            return V[t[1]]
+        if t[0] == "lit":
+            return G.real_val(t[1], objs)
+        if t[0] == "attr":
+            return getattr(term(t[1]), t[2])
+        if t[0] == "call":
+            return getattr(term(t[1]), t[2])()
+        if t[0] == "subq":
+            quant = the if len(t) > 3 and t[3] == "the" else an
+            return quant(entity(V[t[1]], cond(t[2]))) if t[2] is not None else quant(entity(V[t[1]]))
+        raise ValueError(t)
+
+    def cond(c):
+        k = c[0]
+        if k == "cmp":
+            l = term(c[2])
+            return S.Comparator(l, term(c[3]), G.OPS[c[1]])
+        if k == "truth":
+            return term(c[1])
+        if k == "and":
+            l = cond(c[1])
+            return and_(l, cond(c[2]))
+        if k == "or":
+            l = cond(c[1])
+            return or_(l, cond(c[2]))
+        if k == "not":
+            return not_(cond(c[1]))
+        raise ValueError(c)
+
+    sel = [term(t) for t in q["sel"]]
+    c = cond(q["cond"])
+    single = len(sel) == 1 and not q.get("force_set_of")
+    kw = {"quantification": quantification} if quantification is not None else {}
+    query = an(entity(sel[0], c), **kw) if single else an(set_of(sel, c), **kw)
+    return query, sel, single, objs
+
+
+# ---------------------------------------------------------------------------------------- two queries, one variable set
+
+def gen_two(rng):
+    """two quantifier-free queries over the same world and variables (B may use a subset)"""
+    while True:
+        qa = G.gen_query(rng, quantifiers=False)
+        if qa["cond"] is not None and all(len(d) >= 1 for d in qa["doms"].values()):
+            break
+    vs = list(qa["doms"])
+    kinds = qa["kinds"]
+    lo = 0
+    G.EXT["index_ok"] = False
+    G.EXT["sets"] = False
+    condb = G.gen_cond(rng, vs, kinds, rng.randrange(0, 3), [], lo, allow_q=False)
+    selb = [("var", v) for v in rng.sample(vs, rng.randrange(1, len(vs) + 1))]
+    qb = dict(qa)
+    qb["sel"], qb["cond"] = selb, condb
+    return qa, qb
+
+
+def _two(case) -> str:
+    qa, qb = case.payload
+    order = sorted(qa["doms"], key=lambda n: G.VAR_IDS[n])
+
+    def show(query, sel, single, r):
+        return G.show_row((r,)) if single else G.show_row(tuple(r[kk] for kk in sel))
+
+    def fresh():
+        del LOG[:]
+        pulls = {}
+
+        def wrap(name, vals):
+            pulls[name] = 0
+            def gen():
+                for v in vals:
+                    pulls[name] += 1
+                    LOG.append(("pull", name))
+                    yield v
+            return gen()
+        objs = G.make_objects(qa, (LP, LE))
+        V = G.make_vars(qa, objs, False, wrap)
+        A = G.build_query(qa, V, objs)
+        B = G.build_query(qb, V, objs)
+        return A, B, pulls, len(LOG) == 0
+
+    A, B, pulls, silent = fresh()
+    full_a = [show(*A, r) for r in A[0].evaluate()]
+    A, B, pulls, s2 = fresh()
+    full_b = [show(*B, r) for r in B[0].evaluate()]
+    silent = silent and s2
+    n = len(full_a)
+    ok = True
+    ts, us = [], []
+    for k in range(n + 1):
+        A, B, pulls, s_k = fresh()
+        silent = silent and s_k
+        it = iter(A[0].evaluate())
+        rows = []
+        while len(rows) < k:
+            rows.append(show(*A, next(it)))
+        if hasattr(it, "close"):
+            it.close()
+        ok = ok and rows == full_a[:k]
+        itb = iter(B[0].evaluate())
+        got = []
+        try:
+            got.append(show(*B, next(itb)))
+        except StopIteration:
+            pass
+        ts.append(f"t{k}:[" + ",".join(str(pulls[v]) for v in order) + "]")
+        got += [show(*B, r) for r in itb]
+        ok = ok and got == full_b
+        us.append(f"u{k}:[" + ",".join(str(pulls[v]) for v in order) + "]")
+    return f"silent={int(silent)} prefix={int(ok)} n={n} m={len(full_b)} " + " ".join(ts + us)
 NESTED = []   # the nested-quantifier cases of the last `generate` (re-used by `extra_coverage`)
 
 
@@ -280,12 +568,41 @@ def gen_nested_quantifier(rng):
             "kinds": {n: k for n, k in kinds.items() if n in used}}
 
 
+_extra_sub = {}
+
+
 def extra_coverage():
     """equality rate of the pull counts (impl == trace model, per domain and per k) on the nested-quantifier cases of
     this run; the check only requires impl <= model"""
     import core
     if not NESTED:
         return {}
+    out = {}
+    for name, fam in (("subquery_operands", SUBQ), ("two_queries_one_variable_set", TWO)):
+        if not fam:
+            continue
+        impl = run_impl(fam)
+        drv = core.Driver(PID).run([c.line for c in fam])
+        le = eq = exc = lazy = rows_eq = 0
+        for i, d in zip(impl, drv):
+            m = d.get("model", "")
+            le += bool(compare(i, m))
+            if i.startswith("exc:") and m == "exc":
+                exc += 1
+                eq += 1
+            elif i.startswith("silent=1 prefix=1 ") and i.split(" ", 2)[2] == m:
+                eq += 1
+                k1 = re.search(r"k1:\[([^\]]*)\]", m)
+                end = re.search(r"end:\[([^\]]*)\]", m)
+                lazy += bool(k1 and end and k1.group(1) != end.group(1))
+            rows_eq += "lrows" in d and d["lrows"] == d.get("rows")
+        out[name] = {"cases": len(fam), "impl_le_model": le, "impl_eq_model": eq, "of_which_exception_on_both_sides": exc,
+                     "equal_and_first_result_before_exhaustion": lazy}
+        if name == "subquery_operands":
+            out[name]["trace_rows_eq_list_model_rows"] = rows_eq
+            out[name]["with_the"] = sum(1 for c in fam if "subq-the" in c.tags)
+            out[name]["correlated"] = sum(1 for c in fam if "subq-corr" in c.tags)
+    _extra_sub.update(out)
     cases = list(NESTED) + list(ROOTQ)
     impl = run_impl(cases)
     drv = core.Driver(PID).run([c.line for c in cases])
@@ -303,7 +620,7 @@ def extra_coverage():
             end = re.search(r"end:\[([^\]]*)\]", m)
             if k1 and end and k1.group(1) != end.group(1):
                 lazy += 1
-    return {"nested_quantifiers": {"cases": len(cases), "impl_le_model": le, "impl_eq_model": eq,
+    return {**_extra_sub, "nested_quantifiers": {"cases": len(cases), "impl_le_model": le, "impl_eq_model": eq,
                                    "of_which_exception_on_both_sides": exc,
                                    "equal_and_first_result_before_exhaustion": lazy,
                                    "fragment_N_per_driver": sum(1 for d in drv if d.get("frag") == "N"),
@@ -315,13 +632,49 @@ def extra_coverage():
 def revive(case: Case) -> Case:
     if case.line.startswith("(silent") or case.line.startswith("(flat") or case.line.startswith("(qpulls"):
         return case
-    if case.payload is None:
+    if case.payload is None and case.line.startswith("(qs "):
+        case.payload = parse_sub(case.line)
+    elif case.payload is None and case.line.startswith("(two "):
+        sx = case.line[len("(two "):-1]
+        depth, cut = 0, None
+        for i, ch in enumerate(sx):
+            depth += ch == "("
+            depth -= ch == ")"
+            if depth == 0 and ch == ")":
+                cut = i + 1
+                break
+        case.payload = (G.parse_query(sx[:cut].strip()), G.parse_query(sx[cut:].strip()))
+        case.payload[1]["kinds"] = case.payload[0].get("kinds", {})
+    elif case.payload is None:
         case.payload = G.parse_query(case.line)
     return case
 
 
 def shrink(case: Case):
     if case.payload is None:
+        return
+    if case.line.startswith("(two "):
+        qa, qb = case.payload
+        for n, d in qa["doms"].items():
+            for i in range(len(d)):
+                if len(d) > 1:
+                    a2, b2 = dict(qa), dict(qb)
+                    a2["doms"] = b2["doms"] = {**qa["doms"], n: d[:i] + d[i + 1:]}
+                    yield Case("(two " + G.sx_query(a2) + " " + G.sx_query(b2) + ")", case.tags, "shrink", (a2, b2))
+        return
+    if case.line.startswith("(qs "):
+        q = case.payload
+        for n, d in q["doms"].items():
+            for i in range(len(d)):
+                q2 = dict(q)
+                q2["doms"] = {**q["doms"], n: d[:i] + d[i + 1:]}
+                yield Case(sx_sub(q2), case.tags, "shrink", q2)
+        if q["cond"][0] in ("and", "or"):
+            for part in (q["cond"][1], q["cond"][2]):
+                if _subqs(part):
+                    q2 = dict(q)
+                    q2["cond"] = part
+                    yield Case(sx_sub(q2), case.tags, "shrink", q2)
         return
     for q in G.shrink_query(case.payload):
         yield Case(G.sx_query(q), case.tags, "shrink", q)
@@ -334,6 +687,11 @@ def nontrivial(case: Case, spec: str) -> bool:
         return int(spec.split("=")[1]) < int(case.line.split()[-1].rstrip(")"))
     if case.line.startswith("(flat"):
         return not spec.startswith("n=0 ")
+    if case.line.startswith("(two "):
+        # B's first result after A was abandoned at k = 0 needs less than exhausting both
+        t0 = re.search(r"t0:\[([^\]]*)\]", spec)
+        us = re.findall(r"u\d+:\[([^\]]*)\]", spec)
+        return bool(t0 and us and t0.group(1) != us[-1])
     if "(forall " in case.line and case.line.count("(forall ") == 1 and "(cond (forall " in case.line:
         # root-level for_all: non-trivial = the universal variable's domain (variable id 3, listed last) was NOT
         # exhausted, i.e. the early exit was taken with values left
@@ -371,7 +729,10 @@ def _consume(q, k, which=0):
                 yield v
         return gen()
 
-    query, sel, single, _ = G.build_real(q, wrap_domain=wrap, classes=(LP, LE), quantification=_slack_constraint(which))
+    if q.get("subfam"):
+        query, sel, single, _ = build_sub(q, wrap, quantification=_slack_constraint(which))
+    else:
+        query, sel, single, _ = G.build_real(q, wrap_domain=wrap, classes=(LP, LE), quantification=_slack_constraint(which))
     silent = len(LOG) == 0
     rows = []
     it = iter(query.evaluate())
@@ -490,6 +851,11 @@ def _one(case: Case) -> str:
     if case.line.startswith("(silent"):
         import props.c10_build as B
         return B.run(int(case.line.split()[1].rstrip(")")))
+    if case.line.startswith("(two "):
+        try:
+            return _two(case)
+        except Exception as e:  # noqa: BLE001
+            return "exc:" + type(e).__name__
     q = case.payload
     which = int(case.key()[:6], 16)   # which never-violated quantification constraint decorates this query
     try:
@@ -519,7 +885,7 @@ def _parse(obs: str):
     m = re.search(r"n=(\d+)", obs)
     if not m:
         return None
-    vecs = {k: [int(x) for x in v.split(",") if x] for k, v in re.findall(r"(k\d+|h\d+|end):\[([^\]]*)\]", obs)}
+    vecs = {k: [int(x) for x in v.split(",") if x] for k, v in re.findall(r"(k\d+|h\d+|t\d+|u\d+|end):\[([^\]]*)\]", obs)}
     return int(m.group(1)), vecs
 
 
